@@ -3348,9 +3348,17 @@ class ContractionTree:
         locations = self.slice_key(i)
 
         for c in self.sliced_inputs:
-            # the indexing object, e.g. [:, :, 7, :, 2, :, :, 0]
+            shape = do("shape", temp_arrays[c])
+            # the indexing object, e.g. [:, :, 7, :, 2, :, :, 0], n.b. an
+            # array that is size 1 along (i.e. broadcasts) a sliced index
+            # contributes its single entry to every slice
             selector = tuple(
-                locations.get(ix, slice(None)) for ix in self.inputs[c]
+                (
+                    (0 if shape[ax] == 1 else locations[ix])
+                    if ix in locations
+                    else slice(None)
+                )
+                for ax, ix in enumerate(self.inputs[c])
             )
             # re-insert the sliced array
             temp_arrays[c] = temp_arrays[c][selector]
